@@ -122,37 +122,43 @@ theorem window_partition_count (count skip t0 : Nat) (evs : List (Nat × Ev α))
     simp only [Cnt.init, Base.pushedOf_subscribe, Cnt.createWindow_pushedOf]; simp [Base.pushedOf]
   rw [this, List.nil_append]
 
-theorem window_partition_boundaries (t0 : Nat) (evs : List (Nat × Ev α)) (id : Nat) :
-    (Bnd.run (Bnd.init t0) evs).b.pushedOf id = routed Bnd.mach (·.b) (fun s => [s.cur]) (Bnd.init t0) evs id := by
+theorem window_partition_boundaries (t0 : Nat) (bsync : Option (Notif Unit)) (evs : List (Nat × Ev α)) (id : Nat) :
+    (Bnd.run (Bnd.init t0 bsync) evs).b.pushedOf id = routed Bnd.mach (·.b) (fun s => [s.cur]) (Bnd.init t0 bsync) evs id := by
   rw [Bnd.run_eq_fold]
   have h := partition_of_step Bnd.mach (·.b) (fun s : Bnd α => [s.cur]) (fun _ => True)
-    (fun _ _ _ _ => trivial) (fun s t e id _ => Bnd.delta_step s t e id) evs (Bnd.init t0) id trivial
+    (fun _ _ _ _ => trivial) (fun s t e id _ => Bnd.delta_step s t e id) evs (Bnd.init t0 bsync) id trivial
   rw [h]
-  have : (Bnd.init (α := α) t0).b.pushedOf id = [] := by
-    simp only [Bnd.init, Base.pushedOf_subscribe, Base.pushedOf_outerNext, Base.pushedOf_newWin]; simp [Base.pushedOf]
+  have : (Bnd.init (α := α) t0 bsync).b.pushedOf id = [] := by
+    have h0 : ∀ j, (({ now := t0 } : Base α).newWin.1.outerNext ({ now := t0 } : Base α).newWin.2).pushedOf j = [] := by
+      intro j; simp only [Base.pushedOf_outerNext, Base.pushedOf_newWin]; simp [Base.pushedOf]
+    cases bsync with
+    | none => simp only [Bnd.init, Base.pushedOf_subscribe]; exact h0 id
+    | some n =>
+      cases n <;> simp only [Bnd.init, Bnd.onBoundary, Bnd.onEnd, Base.pushedOf_subscribe, Base.pushedOf_outerNext,
+        Base.pushedOf_newWin, Base.pushedOf_winEnd, Base.pushedOf_outerEnd] <;> simp [Base.pushedOf]
   rw [this, List.nil_append]
 
-theorem window_partition_when (raiseAt : Option Nat) (pool t0 : Nat) (evs : List (Nat × Ev α)) (id : Nat) :
-    (Whn.run raiseAt pool (Whn.init raiseAt pool t0) evs).b.pushedOf id =
-      routed (Whn.mach raiseAt pool) (·.b) (fun s => [s.cur]) (Whn.init raiseAt pool t0) evs id := by
+theorem window_partition_when (raiseAt : Option Nat) (pool t0 : Nat) (sync : List (Option (Option Err))) (evs : List (Nat × Ev α)) (id : Nat) :
+    (Whn.run raiseAt pool (Whn.init raiseAt pool t0 sync) evs).b.pushedOf id =
+      routed (Whn.mach raiseAt pool) (·.b) (fun s => [s.cur]) (Whn.init raiseAt pool t0 sync) evs id := by
   rw [Whn.run_eq_fold]
   have h := partition_of_step (Whn.mach raiseAt pool) (·.b) (fun s : Whn α => [s.cur]) (fun _ => True)
-    (fun _ _ _ _ => trivial) (fun s t e id _ => Whn.delta_step raiseAt pool s t e id) evs (Whn.init raiseAt pool t0) id trivial
+    (fun _ _ _ _ => trivial) (fun s t e id _ => Whn.delta_step raiseAt pool s t e id) evs (Whn.init raiseAt pool t0 sync) id trivial
   rw [h]
-  have : (Whn.init (α := α) raiseAt pool t0).b.pushedOf id = [] := by
+  have : (Whn.init (α := α) raiseAt pool t0 sync).b.pushedOf id = [] := by
     simp only [Whn.init, Whn.createClosing_pushedOf, Base.pushedOf_subscribe, Base.pushedOf_outerNext, Base.pushedOf_newWin]
     simp [Base.pushedOf]
   rw [this, List.nil_append]
 
-theorem window_partition_toggle (raiseAt : Option Nat) (pool t0 : Nat) (evs : List (Nat × Ev α)) (id : Nat) :
-    (Tgl.run raiseAt pool (Tgl.init t0) evs).b.pushedOf id =
-      routed (Tgl.mach raiseAt pool) (·.b) Tgl.openOf (Tgl.init t0) evs id := by
+theorem window_partition_toggle (raiseAt : Option Nat) (pool t0 : Nat) (sync : List (Option (Option Err))) (evs : List (Nat × Ev α)) (id : Nat) :
+    (Tgl.run raiseAt pool (Tgl.init t0 sync) evs).b.pushedOf id =
+      routed (Tgl.mach raiseAt pool) (·.b) Tgl.openOf (Tgl.init t0 sync) evs id := by
   rw [Tgl.run_eq_fold]
   have h := partition_of_step (Tgl.mach raiseAt pool) (·.b) Tgl.openOf Tgl.Good
     (fun s t e hg => Tgl.good_step raiseAt pool s t e hg) (fun s t e id hg => Tgl.delta_step raiseAt pool s t e id hg)
-    evs (Tgl.init t0) id ⟨by simp [Tgl.init, Tgl.openOf], by simp [Tgl.init, Tgl.openOf]⟩
+    evs (Tgl.init t0 sync) id ⟨by simp [Tgl.init, Tgl.openOf], by simp [Tgl.init, Tgl.openOf]⟩
   rw [h]
-  have : (Tgl.init (α := α) t0).b.pushedOf id = [] := by simp [Tgl.init, Base.pushedOf]
+  have : (Tgl.init (α := α) t0 sync).b.pushedOf id = [] := by simp [Tgl.init, Base.pushedOf]
   rw [this, List.nil_append]
 
 /-- `window_with_time_`: along the schedule the machine follows (source events with the timer firings inserted,
@@ -215,7 +221,7 @@ theorem windows_end_when_mapper_raises (pool : Nat) (s : Whn α) :
     let s' := Whn.createClosing (some s.calls) pool s
     (∀ id ∈ [s.cur], id < s.b.wins.length → s.b.endedOf id = none →
         s'.b.endedOf id = some (some s!"cm{s.calls}")) ∧ s'.b.outerStopped = true := by
-  simp only [Whn.createClosing, beq_self_eq_true, if_true, Whn.onEnd, Base.os_outerEnd, and_true]
+  simp only [Whn.createClosing, Whn.createClosingF, beq_self_eq_true, if_true, Whn.onEnd, Base.os_outerEnd, and_true]
   intro id hid hlt hnn
   rw [Base.endedOf_outerEnd]
   exact endsAll_single s.b s.cur (some s!"cm{s.calls}") id hid hlt hnn
@@ -247,20 +253,20 @@ theorem windows_end_with_source_time_or_count (span count : Nat) (s : Toc α) (t
 already ended.  `all_windows_end_with_source_*`: in every reachable state in which the operator listens to the
 source, the step of a source terminal leaves no window un-ended (count: `wwc_ends_with_source`). -/
 
-theorem closed_windows_ended_boundaries (t0 : Nat) (evs : List (Nat × Ev α)) :
-    let s := Bnd.run (Bnd.init t0) evs
+theorem closed_windows_ended_boundaries (t0 : Nat) (bsync : Option (Notif Unit)) (evs : List (Nat × Ev α)) :
+    let s := Bnd.run (Bnd.init t0 bsync) evs
     ∀ id, id < s.b.wins.length → id ∈ [s.cur] ∨ (s.b.endedOf id).isSome = true := by
   intro s; show ClosedB s.b [s.cur]
   simp only [s]; rw [Bnd.run_eq_fold]
-  exact (fold_inv Bnd.mach Bnd.KInv (fun s t e h => Bnd.kinv_step s t e h) evs _ (Bnd.kinv_init t0)).2
+  exact (fold_inv Bnd.mach Bnd.KInv (fun s t e h => Bnd.kinv_step s t e h) evs _ (Bnd.kinv_init t0 bsync)).2
 
-theorem closed_windows_ended_when (raiseAt : Option Nat) (pool t0 : Nat) (evs : List (Nat × Ev α)) :
-    let s := Whn.run raiseAt pool (Whn.init raiseAt pool t0) evs
+theorem closed_windows_ended_when (raiseAt : Option Nat) (pool t0 : Nat) (sync : List (Option (Option Err))) (evs : List (Nat × Ev α)) :
+    let s := Whn.run raiseAt pool (Whn.init raiseAt pool t0 sync) evs
     ∀ id, id < s.b.wins.length → id ∈ [s.cur] ∨ (s.b.endedOf id).isSome = true := by
   intro s; show ClosedB s.b [s.cur]
   simp only [s]; rw [Whn.run_eq_fold]
   exact (fold_inv (Whn.mach raiseAt pool) Whn.KInv (fun s t e h => Whn.kinv_step raiseAt pool s t e h) evs _
-    (Whn.kinv_init raiseAt pool t0)).2
+    (Whn.kinv_init raiseAt pool t0 sync)).2
 
 theorem closed_windows_ended_time (span shift t0 : Nat) (evs : List (Nat × Ev α)) :
     let s := (Tim.mach shift).fold (Tim.init span shift t0) evs
@@ -272,20 +278,20 @@ theorem closed_windows_ended_time_or_count (span count t0 : Nat) (evs : List (Na
     ∀ id, id < s.b.wins.length → id ∈ [s.s] ∨ (s.b.endedOf id).isSome = true :=
   (fold_inv (Toc.mach span count) Toc.KInv (fun s t e h => Toc.kinv_step span count s t e h) evs _ (Toc.kinv_init span t0)).2
 
-theorem all_windows_end_with_source_boundaries (t0 : Nat) (evs : List (Nat × Ev α)) (t k : Nat) (hk : k = 0 ∨ k = 1)
-    (e : Option Err) (hl : (Bnd.run (Bnd.init t0) evs).b.live.contains k = true) :
-    let s' := Bnd.mach.step (Bnd.run (Bnd.init t0) evs) t (.src k (endNotif e))
+theorem all_windows_end_with_source_boundaries (t0 : Nat) (bsync : Option (Notif Unit)) (evs : List (Nat × Ev α)) (t k : Nat) (hk : k = 0 ∨ k = 1)
+    (e : Option Err) (hl : (Bnd.run (Bnd.init t0 bsync) evs).b.live.contains k = true) :
+    let s' := Bnd.mach.step (Bnd.run (Bnd.init t0 bsync) evs) t (.src k (endNotif e))
     ∀ id, id < s'.b.wins.length → (s'.b.endedOf id).isSome = true := by
   rw [Bnd.run_eq_fold] at hl ⊢
-  exact Bnd.all_ended _ t k hk e hl (fold_inv Bnd.mach Bnd.KInv (fun s t e h => Bnd.kinv_step s t e h) evs _ (Bnd.kinv_init t0))
+  exact Bnd.all_ended _ t k hk e hl (fold_inv Bnd.mach Bnd.KInv (fun s t e h => Bnd.kinv_step s t e h) evs _ (Bnd.kinv_init t0 bsync))
 
-theorem all_windows_end_with_source_when (raiseAt : Option Nat) (pool t0 : Nat) (evs : List (Nat × Ev α)) (t : Nat)
-    (e : Option Err) (hl : (Whn.run raiseAt pool (Whn.init raiseAt pool t0) evs).b.live.contains 0 = true) :
-    let s' := (Whn.mach raiseAt pool).step (Whn.run raiseAt pool (Whn.init raiseAt pool t0) evs) t (.src 0 (endNotif e))
+theorem all_windows_end_with_source_when (raiseAt : Option Nat) (pool t0 : Nat) (sync : List (Option (Option Err))) (evs : List (Nat × Ev α)) (t : Nat)
+    (e : Option Err) (hl : (Whn.run raiseAt pool (Whn.init raiseAt pool t0 sync) evs).b.live.contains 0 = true) :
+    let s' := (Whn.mach raiseAt pool).step (Whn.run raiseAt pool (Whn.init raiseAt pool t0 sync) evs) t (.src 0 (endNotif e))
     ∀ id, id < s'.b.wins.length → (s'.b.endedOf id).isSome = true := by
   rw [Whn.run_eq_fold] at hl ⊢
   exact Whn.all_ended raiseAt pool _ t e hl (fold_inv (Whn.mach raiseAt pool) Whn.KInv
-    (fun s t e h => Whn.kinv_step raiseAt pool s t e h) evs _ (Whn.kinv_init raiseAt pool t0))
+    (fun s t e h => Whn.kinv_step raiseAt pool s t e h) evs _ (Whn.kinv_init raiseAt pool t0 sync))
 
 theorem all_windows_end_with_source_time (span shift t0 : Nat) (evs : List (Nat × Ev α)) (t : Nat) (e : Option Err)
     (hl : ((Tim.mach shift).fold (Tim.init span shift t0) evs).b.live.contains 0 = true) :
@@ -351,21 +357,21 @@ theorem buffer_eq_window_count (count skip t0 : Nat) (evs : List (Nat × Ev α))
   rw [Cnt.run_eq_fold]
   exact (J_fold (Cnt.mach count skip) (·.b) (fun s t e h => Cnt.J_step count skip s t e h) evs _ (Cnt.J_init t0)).items
 
-theorem buffer_eq_window_boundaries (t0 : Nat) (evs : List (Nat × Ev α)) :
-    ItemsArePushed (Bnd.run (Bnd.init t0) evs).b := by
+theorem buffer_eq_window_boundaries (t0 : Nat) (bsync : Option (Notif Unit)) (evs : List (Nat × Ev α)) :
+    ItemsArePushed (Bnd.run (Bnd.init t0 bsync) evs).b := by
   rw [Bnd.run_eq_fold]
-  exact (J_fold Bnd.mach (·.b) (fun s t e h => Bnd.J_step s t e h) evs _ (Bnd.J_init t0)).items
+  exact (J_fold Bnd.mach (·.b) (fun s t e h => Bnd.J_step s t e h) evs _ (Bnd.J_init t0 bsync)).items
 
-theorem buffer_eq_window_when (raiseAt : Option Nat) (pool t0 : Nat) (evs : List (Nat × Ev α)) :
-    ItemsArePushed (Whn.run raiseAt pool (Whn.init raiseAt pool t0) evs).b := by
+theorem buffer_eq_window_when (raiseAt : Option Nat) (pool t0 : Nat) (sync : List (Option (Option Err))) (evs : List (Nat × Ev α)) :
+    ItemsArePushed (Whn.run raiseAt pool (Whn.init raiseAt pool t0 sync) evs).b := by
   rw [Whn.run_eq_fold]
   exact (J_fold (Whn.mach raiseAt pool) (·.b) (fun s t e h => Whn.J_step raiseAt pool s t e h) evs _
-    (Whn.J_init raiseAt pool t0)).items
+    (Whn.J_init raiseAt pool t0 sync)).items
 
-theorem buffer_eq_window_toggle (raiseAt : Option Nat) (pool t0 : Nat) (evs : List (Nat × Ev α)) :
-    ItemsArePushed (Tgl.run raiseAt pool (Tgl.init t0) evs).b := by
+theorem buffer_eq_window_toggle (raiseAt : Option Nat) (pool t0 : Nat) (sync : List (Option (Option Err))) (evs : List (Nat × Ev α)) :
+    ItemsArePushed (Tgl.run raiseAt pool (Tgl.init t0 sync) evs).b := by
   rw [Tgl.run_eq_fold]
-  exact (J_fold (Tgl.mach raiseAt pool) (·.b) (fun s t e h => Tgl.J_step raiseAt pool s t e h) evs _ (Tgl.J_init t0)).items
+  exact (J_fold (Tgl.mach raiseAt pool) (·.b) (fun s t e h => Tgl.J_step raiseAt pool s t e h) evs _ (Tgl.J_init t0 sync)).items
 
 theorem buffer_eq_window_time (span shift t0 horizon fuel : Nat) (evs : List (Nat × Ev α)) :
     ItemsArePushed ((Tim.mach shift).run horizon fuel (Tim.init span shift t0) evs).b := by
@@ -396,21 +402,21 @@ theorem buffer_run_is_view_count (count skip horizon fuel t0 : Nat) (evs : List 
         ((Cnt.mach count skip).bufAfter true 0 t0 (Cnt.init t0) {}) evs).1.b.log).out :=
   Mach.bufLog_is_view (Cnt.mach count skip) (fun s t e => Cnt.Pre_step count skip s t e (Pre.refl s.b)) _ _ _ _ _ _
 
-theorem buffer_run_is_view_boundaries (horizon fuel t0 : Nat) (evs : List (Nat × Ev α)) :
-    Bnd.mach.bufLog false horizon fuel t0 (Bnd.init t0) evs =
-      (viewOf false (Bnd.mach.runBuf false horizon fuel (Bnd.mach.bufAfter false 0 t0 (Bnd.init t0) {}) evs).1.b.log).out :=
+theorem buffer_run_is_view_boundaries (horizon fuel t0 : Nat) (bsync : Option (Notif Unit)) (evs : List (Nat × Ev α)) :
+    Bnd.mach.bufLog false horizon fuel t0 (Bnd.init t0 bsync) evs =
+      (viewOf false (Bnd.mach.runBuf false horizon fuel (Bnd.mach.bufAfter false 0 t0 (Bnd.init t0 bsync) {}) evs).1.b.log).out :=
   Mach.bufLog_is_view Bnd.mach (fun s t e => Bnd.Pre_step s t e (Pre.refl s.b)) _ _ _ _ _ _
 
-theorem buffer_run_is_view_when (raiseAt : Option Nat) (pool horizon fuel t0 : Nat) (evs : List (Nat × Ev α)) :
-    (Whn.mach raiseAt pool).bufLog false horizon fuel t0 (Whn.init raiseAt pool t0) evs =
+theorem buffer_run_is_view_when (raiseAt : Option Nat) (pool horizon fuel t0 : Nat) (sync : List (Option (Option Err))) (evs : List (Nat × Ev α)) :
+    (Whn.mach raiseAt pool).bufLog false horizon fuel t0 (Whn.init raiseAt pool t0 sync) evs =
       (viewOf false ((Whn.mach raiseAt pool).runBuf false horizon fuel
-        ((Whn.mach raiseAt pool).bufAfter false 0 t0 (Whn.init raiseAt pool t0) {}) evs).1.b.log).out :=
+        ((Whn.mach raiseAt pool).bufAfter false 0 t0 (Whn.init raiseAt pool t0 sync) {}) evs).1.b.log).out :=
   Mach.bufLog_is_view (Whn.mach raiseAt pool) (fun s t e => Whn.Pre_step raiseAt pool s t e (Pre.refl s.b)) _ _ _ _ _ _
 
-theorem buffer_run_is_view_toggle (raiseAt : Option Nat) (pool horizon fuel t0 : Nat) (evs : List (Nat × Ev α)) :
-    (Tgl.mach raiseAt pool).bufLog false horizon fuel t0 (Tgl.init t0) evs =
+theorem buffer_run_is_view_toggle (raiseAt : Option Nat) (pool horizon fuel t0 : Nat) (sync : List (Option (Option Err))) (evs : List (Nat × Ev α)) :
+    (Tgl.mach raiseAt pool).bufLog false horizon fuel t0 (Tgl.init t0 sync) evs =
       (viewOf false ((Tgl.mach raiseAt pool).runBuf false horizon fuel
-        ((Tgl.mach raiseAt pool).bufAfter false 0 t0 (Tgl.init t0) {}) evs).1.b.log).out :=
+        ((Tgl.mach raiseAt pool).bufAfter false 0 t0 (Tgl.init t0 sync) {}) evs).1.b.log).out :=
   Mach.bufLog_is_view (Tgl.mach raiseAt pool) (fun s t e => Tgl.Pre_step raiseAt pool s t e (Pre.refl s.b)) _ _ _ _ _ _
 
 theorem buffer_run_is_view_time (span shift horizon fuel t0 : Nat) (evs : List (Nat × Ev α)) :
@@ -469,6 +475,19 @@ theorem wwt_window_k (span shift t0 horizon fuel : Nat) (hs : 0 < shift) (tx : L
   rw [hs_eq] at hk ⊢
   rw [hinv.len] at hk
   simpa using hinv.pushed k (by omega)
+
+/-- **when_sync_closing_rotation.** `window_when_` with a closing observable that fires INSIDE its own subscribe for the
+first window (`empty()`), followed by asynchronous closings @230, @250: the re-entrant rotation leaves the next live
+closing subscription installed, so the later windows still close on their signals: `[[], [1, 2], [3], [4]]`, and the
+subscription to the second closing (source id 2) lives from 200 to 230.  (Seeded change C18r2_1 — dropping the
+intermediate SingleAssignmentDisposable — gives `[[], [1, 2, 3, 4]]` on the real code.) -/
+theorem when_sync_closing_rotation :
+    let s := Whn.run none 4 (Whn.init none 4 200 [some none])
+      [(210, .src 0 (.next 1)), (220, .src 0 (.next 2)), (230, .src 2 (.next 0)), (240, .src 0 (.next 3)),
+       (250, .src 3 (.next 0)), (260, .src 0 (.next 4)), (300, .src 0 (.completed : Notif Nat))]
+    s.b.wins.map (fun w => (w.pushed, w.ended)) =
+      [([], some none), ([1, 2], some none), ([3], some none), ([4], some none)] ∧
+    s.b.log.filter (fun p => p.2 == .sub 2 || p.2 == .unsub 2) = [(200, .sub 2), (230, .unsub 2)] := by decide
 
 /-! non-vacuity -/
 example : (((Tim.mach 50).run 3000 100 (Tim.init 30 50 200)
